@@ -984,7 +984,7 @@ def secondary_localign(
                 gapA = matrix[i-1][j] + gopB[i-1]
 
             # calculate costs for gapB
-            if proA[j-1] in r and proB[i-1] not in r and j != N:
+            if proA[j-1] in r and proB[i-1] not in r and i != N:
                 gapB = matrix[i][j-1] - 1000000
             elif traceback[i][j-1] == 2:
                 gapB = matrix[i][j-1] + gopA[j-1] * scale
